@@ -1,11 +1,11 @@
 """C07: pattern matching is exhaustive when accepted and first-match when run (MC_Match.tla)."""
-import json, os, random, re, time
+import os, json, random, re, time
 import vlib, aikengen as ag
 from vlib import log
 from uplc_checks import cj, write_cfg
 
 TYMAP = {"Bool": ag.BOOL, "Int": ag.INT, "Color": ag.TAdt("Color"), "OptInt": ag.TOption(ag.INT), "OptColor": ag.TOption(ag.TAdt("Color")),
-         "Shape": ag.TAdt("Shape"), "Point": ag.TAdt("Point"), "ListInt": ag.TList(ag.INT), "ListIntSmall": ag.TList(ag.INT), "TupIntBool": ag.TTuple(ag.INT, ag.BOOL), "TupListSmall": ag.TTuple(ag.TList(ag.INT), ag.INT),
+         "Shape": ag.TAdt("Shape"), "Point": ag.TAdt("Point"), "ListInt": ag.TList(ag.INT), "ListIntSmall": ag.TList(ag.INT), "IntBig": ag.INT, "TupIntBool": ag.TTuple(ag.INT, ag.BOOL), "TupListSmall": ag.TTuple(ag.TList(ag.INT), ag.INT),
          "TupColorOpt": ag.TTuple(ag.TAdt("Color"), ag.TOption(ag.INT)), "PairIntBool": ag.TPair(ag.INT, ag.BOOL)}
 
 
@@ -33,6 +33,27 @@ def name_vars(p, counter):
             p["x"] = "v%d" % counter[0]
             names.append(p["x"])
     return names
+
+
+HUGE = (1 << 70) * 720720
+BIG = {1000001: 1, 1000002: 2}
+
+
+def big_text(src):
+    for k, r in BIG.items():
+        src = re.sub(r"\b%d\b" % k, str(HUGE + r), src)
+    return src
+
+
+def big_data(d):
+    """placeholders -> the symbolic huge integers of the interchange format"""
+    if isinstance(d, dict):
+        if d.get("d") == "I" and d.get("v") in BIG:
+            return {"d": "I", "v": 0, "hs": 1, "hr": BIG[d["v"]]}
+        return {k: big_data(v) for k, v in d.items()}
+    if isinstance(d, list):
+        return [big_data(x) for x in d]
+    return d
 
 
 def render_case(ty, cl):
@@ -152,11 +173,14 @@ def mc_match(tyname, k, workers=6):
 def c07(tier):
     t0 = time.time()
     rep = vlib.Reporter("C07")
-    plan = [("Bool", 3), ("Color", 3), ("OptInt", 3), ("TupIntBool", 2), ("Shape", 2), ("ListInt", 2), ("ListIntSmall", 3), ("TupListSmall", 4), ("PairIntBool", 2), ("OptColor", 2)] if tier == "quick" else \
-           [("Bool", 4), ("Color", 4), ("OptInt", 3), ("TupIntBool", 3), ("Shape", 3), ("ListInt", 3), ("ListIntSmall", 3), ("TupListSmall", 4), ("PairIntBool", 3), ("OptColor", 3), ("TupColorOpt", 2), ("Point", 3)]
+    plan = [("Bool", 3), ("Color", 3), ("OptInt", 3), ("TupIntBool", 2), ("Shape", 2), ("ListInt", 2), ("ListIntSmall", 3), ("TupListSmall", 4), ("IntBig", 3), ("PairIntBool", 2), ("OptColor", 2)] if tier == "quick" else \
+           [("Bool", 4), ("Color", 4), ("OptInt", 3), ("TupIntBool", 3), ("Shape", 3), ("ListInt", 3), ("ListIntSmall", 3), ("TupListSmall", 4), ("IntBig", 4), ("PairIntBool", 3), ("OptColor", 3), ("TupColorOpt", 2), ("Point", 3)]
     states = trans = total = accepted = rejected = runs = 0
     samples = []
     verdicts = {"ok": 0, "redundant": 0, "nonexhaustive": 0}
+    only = os.environ.get("VERIF_C07_ONLY")          # debugging aid: a subset of the plan (evidence then says so)
+    if only:
+        plan = [p for p in plan if p[0] in only.split(",")]
     for tyname, k in plan:
         ty = TYMAP[tyname]
         cases, uni, r = mc_match(tyname, k)
@@ -166,7 +190,9 @@ def c07(tier):
         real = []
         for i, c in enumerate(cases):
             src = render_case(ty, c["cl"])
-            fns = [{"name": "m", "args": [[d] for d in uni]}] if (c["redundant"] == 0 and c["exhaustive"]) else []
+            if tyname == "IntBig":
+                src = big_text(src)
+            fns = [{"name": "m", "args": [[big_data(d)] for d in uni]}] if (c["redundant"] == 0 and c["exhaustive"]) else []
             real.append({"id": i, "src": src, "tracings": [["all", "silent"]], "fns": fns})
         obs = vlib.run_harness("aiken_run", stdin_lines=real, timeout=7200)
         for c, rq, o in zip(cases, real, obs):
@@ -190,7 +216,7 @@ def c07(tier):
                     continue
                 for j, (exp, x) in enumerate(zip(c["runs"], f["results"])):
                     runs += 1
-                    want = {"d": "L", "v": [{"d": "I", "v": exp["i"]}] + exp["b"]}
+                    want = {"d": "L", "v": [{"d": "I", "v": exp["i"]}] + big_data(exp["b"])}
                     got = x["post"]
                     gd = got.get("d")
                     if gd is None and got.get("c", {}).get("t") == "list":      # a List<Data> constant
